@@ -261,7 +261,7 @@ Proof.
     destruct pending; [eapply cinv_vsame; [|exact I1]; repeat split|].
     pose proof (process_min_cinv s1 I1) as A. destruct (process_min K s1) as [s2 did]. cbn [fst] in *.
     destruct did; (eapply cinv_vsame; [|exact A]; repeat split).
-  - apply FS. repeat split.
+  - apply FS. idle_cases; repeat split.
   - eapply cinv_vsame; [|apply (cinv_vsame _ _ (report_failures_vsame (cache s) s) I)]. repeat split.
   - pose proof (refresh_cinv _ I) as I0. pose proof (all_empty_scan_vsame (cache (refresh K s)) (refresh K s) true) as F1.
     destruct (all_empty_scan (refresh K s) (cache (refresh K s)) true) as [s1 e]. cbn [fst] in F1.
